@@ -91,9 +91,6 @@ def main():
         texts += ["%04d-%d" % (yy, wd) for wd in (0, 1, 7, 8)]
     import re as _re
     for t in texts:
-        mw = _re.fullmatch(r"\d{4}-W(\d{2})(?:-(\d))?", t)
-        if mw and (not 1 <= int(mw.group(1)) <= 53 or (mw.group(2) is not None and not 1 <= int(mw.group(2)) <= 7)):
-            continue       # outside the assumed contract: the period grammar's own pattern refuses these before pendulum sees them
         cases += 1
         exp = M.parse_iso(t)
         try:
